@@ -70,14 +70,17 @@ pub struct ThreadState {
     small: ParsedPacket,
     big: ParsedPacket,
     err: *const CErr,
+    /// the pointer a previous error_description() call returned; valid until this thread's next failure
+    kept: *const c_char,
 }
 
 impl ThreadState {
     pub fn new() -> Self {
-        ThreadState { t: table(), small: small_packet(), big: big_packet(), err: std::ptr::null() }
+        ThreadState { t: table(), small: small_packet(), big: big_packet(), err: std::ptr::null(), kept: std::ptr::null() }
     }
     /// A failing table call of kind k; returns the table's return value.
     pub fn fail(&mut self, k: usize) -> c_int {
+        self.kept = std::ptr::null();
         let mut raw = [0u8; 256];
         let mut raw_len: size_t = 0;
         let rn = |s: &mut Self, name: &[u8], raw: &mut [u8; 256], raw_len: &mut size_t| unsafe {
@@ -120,12 +123,31 @@ impl ThreadState {
         let f = unsafe { (self.t.flags)(&self.small) };
         r == 0 && f & 0x8000 != 0
     }
-    pub fn read(&self) -> Option<String> {
+    /// Look again at the string a previous read() obtained, WITHOUT asking the table again: a hook may
+    /// keep the pointer until its thread's next failure.
+    pub fn recheck(&self) -> Option<Option<String>> {
+        if self.kept.is_null() {
+            return None;
+        }
+        unsafe {
+            let p = self.kept;
+            let mut n = 0;
+            while n < 512 && *p.add(n) != 0 {
+                n += 1;
+            }
+            if n == 512 {
+                return Some(Some("<unterminated>".into()));
+            }
+            Some(Some(CStr::from_ptr(p).to_string_lossy().into_owned()))
+        }
+    }
+    pub fn read(&mut self) -> Option<String> {
         if self.err.is_null() {
             return None;
         }
         unsafe {
             let p = (self.t.error_description)(self.err);
+            self.kept = p;
             if p.is_null() {
                 return None;
             }
@@ -173,6 +195,8 @@ pub enum Step {
     Fail(usize),
     Ok,
     Read,
+    /// re-read the kept pointer (no table call)
+    Recheck,
 }
 
 /// All interleavings of `lens[i]` steps per thread, as sequences of thread indices.
@@ -220,7 +244,7 @@ pub fn run_schedule(scripts: &[Vec<Step>], order: &[usize], want: &[String]) -> 
                 let mut spins = 0u64;
                 while turn.load(Ordering::Acquire) != pos {
                     spins += 1;
-                    if spins % 64 == 0 {
+                    if spins % 64 == 0 || cfg!(miri) {
                         std::thread::yield_now();
                     } else {
                         std::hint::spin_loop();
@@ -235,6 +259,11 @@ pub fn run_schedule(scripts: &[Vec<Step>], order: &[usize], want: &[String]) -> 
                         st.ok();
                     }
                     Step::Read => obs.push((ti, pc, st.read(), last.map(|k| want[k % N_KINDS].clone()))),
+                    Step::Recheck => {
+                        if let Some(got) = st.recheck() {
+                            obs.push((ti, pc, got, last.map(|k| want[k % N_KINDS].clone())));
+                        }
+                    }
                 }
                 pc += 1;
                 turn.store(pos + 1, Ordering::Release);
@@ -268,8 +297,12 @@ pub fn run(ctx: &mut Ctx) {
     let reduced = ctx.tier == "miri" || ctx.tier == "tsan";
     // (a) every interleaving of 2 threads x 4 steps (70) and 3 threads x 3 steps (1680), several script sets
     let sets: Vec<(Vec<usize>, u64)> = if reduced {
-        // interpreters / sanitizers: all 20 interleavings of 2 x 3 steps and all 90 of 3 x 2 steps
-        vec![(vec![3, 3], 1), (vec![2, 2, 2], 1)]
+        // interpreters / sanitizers: all 20 interleavings of 2 x 3 steps (and, under TSan, all 90 of 3 x 2 steps)
+        if ctx.tier == "miri" {
+            vec![(vec![3, 3], 1)]
+        } else {
+            vec![(vec![3, 3], 1), (vec![2, 2, 2], 1)]
+        }
     } else {
         vec![(vec![4, 4], if thorough { 40 } else { 6 }), (vec![3, 3, 3], if thorough { 6 } else { 1 })]
     };
@@ -296,14 +329,22 @@ pub fn run(ctx: &mut Ctx) {
             .enumerate()
             .map(|(ti, &l)| {
                 let mut s: Vec<Step> = (0..l)
-                    .map(|_| match rng.below(4) {
+                    .map(|_| match rng.below(6) {
                         0 | 1 => Step::Fail((ti * 3 + rng.below(3)) % N_KINDS),
                         2 => Step::Ok,
+                        3 => Step::Recheck,
                         _ => Step::Read,
                     })
                     .collect();
                 s[0] = Step::Fail((ti * 3) % N_KINDS);
-                *s.last_mut().unwrap() = Step::Read;
+                let l = s.len();
+                if l >= 3 && rng.chance(1, 2) {
+                    // fail, read (keep the pointer), ..., look at the kept pointer again
+                    s[1] = Step::Read;
+                    s[l - 1] = Step::Recheck;
+                } else {
+                    s[l - 1] = Step::Read;
+                }
                 s
             })
             .collect();
@@ -324,7 +365,7 @@ pub fn run(ctx: &mut Ctx) {
     }
     // (b) free-running stress
     let nthreads = if ctx.tier == "miri" { 3 } else { 16 };
-    let steps = if ctx.tier == "miri" { 40 } else { ctx.scaled(if thorough { 400_000 } else if ctx.tier == "tsan" { 4_000 } else { 40_000 }) as usize };
+    let steps = if ctx.tier == "miri" { 24 } else { ctx.scaled(if thorough { 400_000 } else if ctx.tier == "tsan" { 4_000 } else { 40_000 }) as usize };
     let runs = ctx.phase("stress", if reduced { 1 } else { 4 });
     for r in runs {
         ctx.begin_case(r);
@@ -354,6 +395,15 @@ pub fn run(ctx: &mut Ctx) {
                         }
                         3 => {
                             st.ok();
+                        }
+                        4 => {
+                            if let Some(got) = st.recheck() {
+                                reads += 1;
+                                let w = last.map(|k| want[k].clone());
+                                if got != w && bad.len() < 4 {
+                                    bad.push((i, got, w));
+                                }
+                            }
                         }
                         _ => {
                             reads += 1;
